@@ -53,6 +53,9 @@ pub use guest_memory::{
 pub mod io;
 pub use io::{ReadVolatile, WriteVolatile};
 
+#[cfg(vm_memory_verif)]
+pub mod verif;
+
 #[cfg(feature = "backend-mmap")]
 pub mod mmap;
 
